@@ -147,6 +147,19 @@ def run(chk):
         if r != "err":
             chk.violate({"kind": "property", "case": lib.show_case(c), "impl": r[:300],
                          "explanation": "an unterminated paren, bracket, profile group or substvar swallowed the separator and was closed by a later clause's closing character"})
+    # a qualifier or a restriction with NO package name in front of it (a valid field with one ',' or '|' inserted in front of a
+    # clause, or a clause where a relation should begin): not a relation of the grammar - it must be refused, not dropped
+    nn = []
+    for pre in (b"", b"foo, ", b"foo | ", b"foo (>= 1), bar | "):
+        for cl in (b"(>= 2.0)", b"[amd64]", b"[!i386 !amd64]", b"<!nocheck>", b"<a> <!b c>", b":any", b":amd64 (<< 2)", b"(= 1) [amd64] <x>"):
+            for suf in (b"", b", baz", b" | baz"):
+                nn.append(("dparse", [pre + cl + suf]))
+    ni, nm = chk.run_both(nn)
+    chk.compare("restriction-without-a-package-name", nn, ni, nm, spec=False)
+    for c, r in zip(nn, ni):
+        if r != "err":
+            chk.violate({"kind": "property", "class": "restriction-without-name", "case": lib.show_case(c), "impl": r[:300],
+                         "explanation": "a qualifier or restriction clause with no package name in front of it was accepted: the clause is silently dropped (the constraint vanishes)"})
     chk.extra["malformed_classes"] = sorted(set(kinds))
     # single-edit corruptions of valid fields: model vs implementation (ok/err and structure)
     cases = []
